@@ -335,6 +335,53 @@ pub fn run(ctx: &Ctx) -> Report {
           v.push(adversarial(&base, &tail, hs));
         }
       }
+      // self-consistent dictionaries that do not survive a decode / re-encode round trip: served honestly, and the
+      // link's hash is the SHA-1 of exactly the bytes served
+      let plain = |extra: Vec<(&str, B)>| -> Vec<u8> {
+        let mut d = vec![("name", B::s("weird")), ("piece length", B::Int(16384)), ("pieces", B::Bytes(vec![3; 20])), ("length", B::Int(7))];
+        d.extend(extra);
+        B::dict(d).encode()
+      };
+      let mut weird: Vec<(&str, Vec<u8>)> = vec![
+        ("extra-key", plain(vec![("x_cross_seed", B::s("abc"))])),
+        ("extra-key-first", plain(vec![("!first", B::Int(1))])),
+        ("extra-dict", plain(vec![("zz", B::dict(vec![("a", B::List(vec![B::Int(1)]))]))])),
+        ("md5-uppercase", plain(vec![("md5sum", B::s("0123456789ABCDEF0123456789ABCDEF"))])),
+        ("md5-lowercase", plain(vec![("md5sum", B::s("0123456789abcdef0123456789abcdef"))])),
+        ("private-zero", plain(vec![("private", B::Int(0))])),
+        ("private-two", plain(vec![("private", B::Int(2))])),
+        ("update-url-unnormalised", plain(vec![("update-url", B::s("HTTP://Example.COM"))])),
+        ("update-url-normal", plain(vec![("update-url", B::s("http://example.com/u"))])),
+        ("source-empty", plain(vec![("source", B::s(""))])),
+        ("unsorted-keys", b"d4:name5:weird6:lengthi7e12:piece lengthi16384e6:pieces20:aaaaaaaaaaaaaaaaaaaae".to_vec()),
+        ("duplicate-key", b"d6:lengthi7e6:lengthi7e4:name5:weird12:piece lengthi16384e6:pieces20:aaaaaaaaaaaaaaaaaaaae".to_vec()),
+        ("leading-zero-int", b"d6:lengthi07e4:name5:weird12:piece lengthi16384e6:pieces20:aaaaaaaaaaaaaaaaaaaae".to_vec()),
+        ("negative-zero", b"d6:lengthi-0e4:name5:weird12:piece lengthi16384e6:pieces20:aaaaaaaaaaaaaaaaaaaae".to_vec()),
+        ("trailing-bytes", { let mut v = plain(vec![]); v.extend_from_slice(b"junk"); v }),
+        ("trailing-dict", { let mut v = plain(vec![]); v.extend_from_slice(b"de"); v }),
+        ("file-extra-key", B::dict(vec![("name", B::s("weird")), ("piece length", B::Int(16384)), ("pieces", B::Bytes(vec![3; 20])),
+          ("files", B::List(vec![B::dict(vec![("attr", B::s("x")), ("length", B::Int(3)), ("path", B::List(vec![B::s("a")]))])]))]).encode()),
+        ("files-empty-path", B::dict(vec![("name", B::s("weird")), ("piece length", B::Int(16384)), ("pieces", B::Bytes(vec![3; 20])),
+          ("files", B::List(vec![B::dict(vec![("length", B::Int(3)), ("path", B::List(vec![]))])]))]).encode()),
+        ("both-length-and-files", B::dict(vec![("name", B::s("weird")), ("piece length", B::Int(16384)), ("pieces", B::Bytes(vec![3; 20])), ("length", B::Int(3)),
+          ("files", B::List(vec![]))]).encode()),
+        ("name-not-utf8", b"d6:lengthi7e4:name2:\xff\xfe12:piece lengthi16384e6:pieces20:aaaaaaaaaaaaaaaaaaaae".to_vec()),
+        ("not-a-dict", b"l4:infoe".to_vec()),
+        ("metainfo-instead-of-info", B::dict(vec![("info", B::dict(vec![("name", B::s("weird")), ("piece length", B::Int(16384)), ("pieces", B::Bytes(vec![3; 20])), ("length", B::Int(7))]))]).encode()),
+      ];
+      // a large one with an extra key, so that it spans several pieces
+      {
+        let mut big = plain(vec![("x_padding", B::Bytes(vec![b'p'; 40000]))]);
+        big.truncate(big.len());
+        weird.push(("extra-key-three-pieces", big));
+      }
+      for (label, w) in &weird {
+        let n = (w.len() + PIECE - 1) / PIECE;
+        let seq: Vec<&str> = vec!["ok"; n];
+        let mut sc = adversarial(w, &seq, "ok");
+        sc.label = format!("weird[{label}]");
+        v.push(sc);
+      }
       // single-piece base for the size edge cases
       let small = info_of_size(&mut rng, 300);
       for hs in ["size-0", "size-minus-1", "size-plus-1", "ok"] {
@@ -375,6 +422,10 @@ pub fn run(ctx: &Ctx) -> Report {
     }
     // ---- M
     let ans = model.ask(&format!("C11 fetch {} {}", hex(&s.target), hex(&s.incoming)));
+    if ans == "out-of-model" {
+      report.out_of_model += 1;
+      continue;
+    }
     let parts: Vec<&str> = ans.split(' ').collect();
     let reqs = if o.requests.is_empty() { ".".to_string() } else { o.requests.iter().map(|r| r.to_string()).collect::<Vec<_>>().join(",") };
     let agree = match (&o.result, parts.as_slice()) {
